@@ -16,13 +16,16 @@ import (
 // components to be visited, an index into that adjacency slice, the bitmap of
 // components reachable from this component (including itself), and a pointer to
 // the cursor of its parent component (used to roll up reachability when the
-// DFS backtracks).
+// DFS backtracks). exact is cleared once this cursor, or a cursor below it, skipped a
+// component that was already in the DFS-wide visited set: from then on reach may lack
+// that component's descendants, so it is a lower bound that must not be cached.
 type reachCursor struct {
 	component   uint64
 	adjacent    []uint64
 	adjacentIdx int
 	reach       cardinality.Duplex[uint64]
 	ancestor    *reachCursor
+	exact       bool
 }
 
 // Complete merges the reach bitmap of this cursor into its ancestor’s bitmap.
@@ -31,6 +34,11 @@ type reachCursor struct {
 func (s *reachCursor) Complete() {
 	if s.ancestor != nil {
 		s.ancestor.reach.Or(s.reach)
+
+		// An ancestor can only be as exact as the cursors rolled up into it
+		if !s.exact {
+			s.ancestor.exact = false
+		}
 	}
 }
 
@@ -93,6 +101,7 @@ func (s *ReachabilityCache) newReachCursor(component uint64, direction graph.Dir
 		adjacentIdx: 0,
 		reach:       componentReach,
 		ancestor:    previous,
+		exact:       true,
 	}
 }
 
@@ -111,6 +120,7 @@ func (s *ReachabilityCache) newRootReachCursor(component uint64, direction graph
 		adjacent:    adjacentComponents,
 		adjacentIdx: 0,
 		reach:       componentReach,
+		exact:       true,
 	}
 }
 
@@ -225,8 +235,12 @@ func (s *ReachabilityCache) componentReachDFS(component uint64, direction graph.
 			// Complete the cursor to roll up reach cardinalities
 			nextCursor.Complete()
 
-			// Update the cache with this component's reach
-			s.cacheComponentReach(nextCursor, direction)
+			// Update the cache with this component's reach. Only complete reach sets may be cached: a
+			// cursor that skipped an already visited component never saw that component's descendants.
+			// The root cursor's reach doubles as the visited set of the whole DFS and is always complete.
+			if nextCursor.exact || nextCursor == rootCursor {
+				s.cacheComponentReach(nextCursor, direction)
+			}
 		} else if rootCursor.reach.CheckedAdd(nextAdjacentComponent) {
 			// This is a component not yet visited, check if it is cached. If it
 			// is cached, Or(...) its reach and if not traverse into it.
@@ -235,6 +249,9 @@ func (s *ReachabilityCache) componentReachDFS(component uint64, direction graph.
 			} else {
 				stack.PushBack(s.newReachCursor(nextAdjacentComponent, direction, nextCursor))
 			}
+		} else {
+			// Already visited through another path; its descendants are not rolled up into this cursor
+			nextCursor.exact = false
 		}
 	}
 
